@@ -256,7 +256,12 @@ Follow == LET k == TLCGet("level") IN
             /\\ k <= Len(Script)
             /\\ LET e == Script[k] IN /\\ act'[1] = e[1] /\\ act'[2] = e[2]
                                      /\\ (Len(e) >= 3 => act'[3] = e[3])
-ScriptNotDone == TLCGet("level") <= Len(Script)
+\* TLC evaluates invariants also on successors that the action constraint rejects: the final state must itself be reached
+\* by the last scripted step
+ScriptNotDone == LET k == TLCGet("level") IN
+                   ~(/\ k = Len(Script) + 1
+                     /\ LET e == Script[k - 1] IN /\ act[1] = e[1] /\ act[2] = e[2]
+                                                  /\ (Len(e) >= 3 => act[3] = e[3]))
 '''
     c = Cfg(cfg.name + '-script-' + name, cfg.power, cfg.byz, cfg.max_round, cfg.max_height, cfg.nbyz, cfg.budget, cfg.crashes,
             cfg.crash_set, False, False, sync=False, torn=cfg.torn, invariants=['ScriptNotDone'], properties=[],
